@@ -165,6 +165,43 @@ fn check_puncturer(l: &mut Local, pattern: &[bool], block: usize) {
             }
         }
     }
+    // the same codeword handed over as non-standard-layout views (reversed, every second element)
+    {
+        use ndarray::s;
+        let rev: Vec<i64> = tags.iter().rev().cloned().collect();
+        let rev_arr = Array1::from_vec(rev);
+        let mut wide = Vec::with_capacity(2 * n);
+        for &t in &tags {
+            wide.push(t);
+            wide.push(-1);
+        }
+        let wide_arr = Array1::from_vec(wide);
+        for (lname, res) in [
+            ("reversed view", guard(|| p.puncture(&rev_arr.slice(s![..;-1])))),
+            ("stride-2 view", guard(|| p.puncture(&wide_arr.slice(s![..;2])))),
+        ] {
+            l.eval();
+            match res {
+                Ok(Ok(out)) => {
+                    if out.to_vec() != want {
+                        l.violation(
+                            format!("puncture of a {} does not keep exactly the blocks marked true, in order", lname),
+                            det(lname).set("got", out.iter().map(|&x| x as u64).collect::<Vec<_>>()).set("expected", want.iter().map(|&x| x as u64).collect::<Vec<_>>()),
+                        );
+                        return;
+                    }
+                }
+                Ok(Err(e)) => {
+                    l.violation(format!("puncture of a {} returned an error for a divisible length", lname), det(&format!("{:?}", e)));
+                    return;
+                }
+                Err(pm) => {
+                    l.violation(format!("puncture of a {} panicked: {}", lname, panic_class(&pm)), det(&pm));
+                    return;
+                }
+            }
+        }
+    }
     // GF2 elements through puncture
     let tg: Vec<GF2> = (0..n).map(|i| if (i * 5 + i / 2) % 3 == 1 { GF2::one() } else { GF2::zero() }).collect();
     if let Ok(Ok(out)) = guard(|| p.puncture(&Array1::from_vec(tg.clone()))) {
